@@ -82,6 +82,9 @@ class MinimizeMonitor(Monitor):
     def before_minimize(self, run, suite):
         self.before = suite.clone()
         self.before_codes = [_codes(c.test_case) for c in suite.test_case_chromosomes]
+        # the visitors edit TestCase objects in place: identity tells which original a surviving test case came from
+        self.before_keep = [c.test_case for c in suite.test_case_chromosomes]
+        self.before_ids = {id(t): i for i, t in enumerate(self.before_keep)}
         # what the run itself measures inside _minimize (after exception truncation, with whatever faults are
         # active) is captured from its own _check_coverage call
         self.measured_before = None
@@ -141,30 +144,37 @@ class MinimizeMonitor(Monitor):
                                 f"final coverage {cov_after} is below what the run measured before minimisation "
                                 f"{self.measured_before}")
         # structure
-        used = set()
-        for j, codes in enumerate(after_codes):
-            match = None
-            for i, orig in enumerate(self.before_codes):
-                if i not in used and _is_subsequence(codes, orig):
-                    match = i
-                    break
-            if match is None:
-                run.violate("statement-not-in-original",
-                            f"minimised test #{j} is not a subsequence of any original test:\n" + "\n".join(codes))
-                return
-            used.add(match)
+        def lost_asserted(match, codes):
+            """An asserted statement of original #match that is missing from the minimised statements, or None."""
             orig_tc = self.before.test_case_chromosomes[match].test_case
             # exception truncation legitimately cuts everything after the first raising statement
             protected = get_assertion_protected_variables(orig_tc)
             kept_rhs = [_rhs(c) for c in codes]
             for s, code in zip(orig_tc.statements(), self.before_codes[match]):
-                if s.bound_variable in protected and s.assertions:
-                    if _rhs(code) not in kept_rhs:
-                        res = self.before.test_case_chromosomes[match].get_last_execution_result()
-                        run.violate("asserted-statement-removed",
-                                    f"statement `{code}` carries assertions on {s.bound_variable} but is gone from the "
-                                    f"minimised test #{j}:\n" + "\n".join(codes))
-                        return
+                if s.bound_variable in protected and s.assertions and _rhs(code) not in kept_rhs:
+                    return s.bound_variable, code
+            return None
+
+        for j, (chrom, codes) in enumerate(zip(suite.test_case_chromosomes, after_codes)):
+            # which original is this?  by identity when the object survived; otherwise (restored clones) every original
+            # it is a subsequence of is a candidate and the checks are existential over the candidates, so that two
+            # originals sharing a prefix cannot produce a false alarm
+            ident = self.before_ids.get(id(chrom.test_case))
+            cands = [ident] if ident is not None else [i for i, orig in enumerate(self.before_codes)
+                                                       if _is_subsequence(codes, orig)]
+            cands = [i for i in cands if _is_subsequence(codes, self.before_codes[i])]
+            if not cands:
+                run.violate("statement-not-in-original",
+                            f"minimised test #{j} is not a subsequence of "
+                            f"{'its original' if ident is not None else 'any original test'}:\n" + "\n".join(codes))
+                return
+            losses = [lost_asserted(i, codes) for i in cands]
+            if all(x is not None for x in losses):
+                var, code = losses[0]
+                run.violate("asserted-statement-removed",
+                            f"statement `{code}` carries assertions on {var} but is gone from the "
+                            f"minimised test #{j}:\n" + "\n".join(codes))
+                return
 
 
 def run_case(case: dict) -> dict:
